@@ -2,6 +2,9 @@
 use mvcore::{Ctx, Tier};
 use std::time::Instant;
 
+#[global_allocator]
+static ALLOC: mvcore::allocmon::Monitor = mvcore::allocmon::Monitor;
+
 fn main() {
     let args: Vec<String> = std::env::args().collect();
     if args.len() < 2 {
